@@ -80,6 +80,14 @@ def run(ck, F):
         if not res["send_errors"]:
             ck.ok("R3", "sampled-futures-send", "witness crate",
                   f"{n_m} method futures, {n_f} free-function futures and {n_s} envelope types of {res['samples']} derivations satisfy Send / Send+Sync")
+    # every operation signature the samples contain must have been recognised (and so asserted): an unrecognised one is a gap
+    unrec = sorted({p_[2] for r_ in res["renders"].values() for p_ in r_.problems if p_[0] == "operation-signature"})
+    for sig in unrec[:4]:
+        ck.undecided("R3", "operation-signature", "witness crate", f"a generated operation function has a signature the sampler does not recognise, no Send "
+                     f"obligation was stated for it: `{sig}`")
+    if n_f == 0 or n_m == 0:
+        ck.undecided("R3", "operation-kinds", "witness crate", f"Send obligations cover {n_m} client methods and {n_f} free operation functions: one kind is missing "
+                     f"from the samples")
     ck.floor("R3", "Send obligations on samples", n_m + n_f + n_s, 20)
     # R4 on the output grammar
     X = T.extractor(F)
